@@ -58,7 +58,11 @@ func (g *inputGen) session(sess, nItems int, v1ok bool) ([]byte, []uint64) {
 		uid := uint64(g.trIdx)<<48 | uint64(sess)<<32 | uint64(i+1)
 		g.ts += 1 + uint64(g.r.Intn(5))
 		v1 := v1ok && g.keyRaw == nil && g.r.Chance(1, 4)
-		w := uidFrame(uid, byte(i), byte(1+g.trIdx), v1, g.keyRaw, g.ts)
+		sys := byte(1 + g.trIdx)
+		if g.r.Chance(1, 8) {
+			sys = 77 + byte(g.r.Intn(3)) // the system id (component 1) of the receiving node itself: no reason not to deliver
+		}
+		w := uidFrame(uid, byte(i), sys, v1, g.keyRaw, g.ts)
 		switch k := g.r.Intn(10); {
 		case k == 0: // complete frame with a wrong checksum
 			w = append([]byte(nil), w...)
@@ -71,7 +75,7 @@ func (g *inputGen) session(sess, nItems int, v1ok bool) ([]byte, []uint64) {
 		case k == 1 && g.keyRaw != nil: // complete frame with a wrong signature
 			if g.r.Chance(1, 2) {
 				// ... dated far ahead of the genuine traffic: a rejected frame must leave nothing behind (replay window included)
-				w = uidFrame(uid, byte(i), byte(1+g.trIdx), false, g.keyRaw, g.ts+2000000+uint64(g.r.Intn(1<<30)))
+				w = uidFrame(uid, byte(i), sys, false, g.keyRaw, g.ts+2000000+uint64(g.r.Intn(1<<30)))
 			}
 			w = append([]byte(nil), w...)
 			w[len(w)-1-g.r.Intn(6)] ^= 0x01
